@@ -1450,12 +1450,393 @@ Qed.
 Lemma inert_test t : Forall inert (print_test t).
 Proof.
   destruct t as [| |a r b| | | | | |]; try (constructor; fail).
-  - constructor; [apply inert_esc; cbn; congruence|constructor].
-  - constructor; [apply inert_esc; cbn; congruence|constructor].
+  - constructor; [apply inert_esc; cbv; congruence|constructor].
+  - constructor; [apply inert_esc; cbv; congruence|constructor].
   - destruct a as [a|]; [|constructor]. destruct b as [b|]; [|constructor].
-    cbn [print_test]. constructor; [apply inert_esc; cbn; congruence|].
+    cbn [print_test]. constructor; [apply inert_esc; cbv; congruence|].
     apply Forall_app. split; [apply Forall_map_tok, inert_other|].
     constructor; [destruct r; apply inert_other|].
     apply Forall_app. split; [apply Forall_map_tok, inert_other|].
-    constructor; [apply inert_esc; cbn; congruence|constructor].
+    constructor; [apply inert_esc; cbv; congruence|constructor].
+Qed.
+
+(* ---- print (subst args body) = expandDef (print body) (map print args) ---- *)
+Section Subst.
+  Context (args : list (list node)) (n : nat).
+  Context (Hargs : Forall (fun a => forallb fa_node a = true) args) (Hn9 : (n <= 9)%nat).
+  Let ps : list (option (list tok)) := None :: map Some (map print args).
+
+  (* the function MacroLang.subst maps over a body *)
+  Definition sbn (d : nat) (x : node) : list node :=
+    let sub := subst d args in
+    match x with
+    | NParam k => nth (k - 1) args []
+    | NGroup b => [NGroup (sub b)]
+    | NDef g nm np dd b => [NDef g nm np (option_map sub dd) (lower 50 (sub b))]
+    | NCall nm o a => [NCall nm (option_map sub o) (map sub a)]
+    | NCond t th el => [NCond t (sub th) (option_map sub el)]
+    | NCase a bs el => [NCase a (map sub bs) (option_map sub el)]
+    | other => [other]
+    end.
+  Lemma subst_S d l : subst (S d) args l = flat_map (sbn d) l.
+  Proof. reflexivity. Qed.
+
+  Lemma xp_param k : (1 <= k <= 9)%nat -> xp ps [hash_tok; other (48 + N.of_nat k)] (print (nth (k - 1) args [])).
+  Proof.
+    intros Hk tl. cbn [app expand_def]. change (is_param hash_tok) with true. cbn iota.
+    change (is_param (other (48 + N.of_nat k))) with false. cbn iota.
+    change (other (48 + N.of_nat k)) with (digit_tok k). rewrite (digit_of_digit k) by lia.
+    destruct (expand_def tl false ps) as [o|]; [|reflexivity]. f_equal. f_equal.
+    unfold ps. rewrite (nth_params k (map print args)) by lia.
+    change (@nil tok) with (print []). now rewrite map_nth.
+  Qed.
+
+  Definition Q (d : nat) (x : node) : Prop :=
+    xp ps (print_node x) (print (sbn d x)) /\ forallb fa_node (sbn d x) = true.
+
+  Lemma Q_list l d : Forall (fun y => forall d, fb_node n y d = true -> Q d y) l ->
+    forallb (fun y => fb_node n y d) l = true ->
+    xp ps (print l) (print (subst (S d) args l)) /\ forallb fa_node (subst (S d) args l) = true.
+  Proof.
+    rewrite subst_S. induction 1 as [|x l Hx _ IH]; intros H; [split; [apply xp_nil|reflexivity]|].
+    cbn [forallb] in H. apply andb_true_iff in H as [H1 H2]. destruct (Hx d H1) as [Hx1 Hx2]. destruct (IH H2) as [IH1 IH2].
+    cbn [print flat_map]. rewrite print_app, forallb_app, Hx2, IH2. split; [now apply xp_app|reflexivity].
+  Qed.
+
+  Lemma nth_args_A k : forallb fa_node (nth k args []) = true.
+  Proof.
+    assert (H : forall l : list (list node), Forall (fun a => forallb fa_node a = true) l -> forall k, forallb fa_node (nth k l []) = true).
+    { induction 1 as [|a l Ha _ IH]; intros j; [destruct j; reflexivity|]. destruct j as [|j]; [exact Ha|apply IH]. }
+    now apply H.
+  Qed.
+
+  Lemma Q_all : forall x d, fb_node n x d = true -> Q d x.
+  Proof.
+    apply (node_ind2 (fun x => forall d, fb_node n x d = true -> Q d x)).
+    - intros x Hs d H. destruct x; try discriminate H; try discriminate Hs.
+      + split; [cbn [sbn print]; rewrite app_nil_r; apply xp_toks, inert_wprint|reflexivity].
+      + cbn [fb_node] in H. apply andb_true_iff in H as [H1 H2]. apply Nat.leb_le in H1, H2. split.
+        * rewrite print_param. apply xp_param. lia.
+        * apply nth_args_A.
+    - intros b IH d H. cbn [fb_node] in H. destruct d as [|d]; [discriminate H|].
+      destruct (Q_list b d IH H) as [H1 H2]. split.
+      + cbn [sbn print]. rewrite print_group, app_nil_r, print_group.
+        change (bg :: ?l) with ([bg] ++ l). apply xp_app; [apply xp_tok, inert_bg|].
+        apply xp_app; [exact H1|apply xp_tok, inert_eg].
+      + cbn [sbn forallb fa_node]. now rewrite H2.
+    - intros g nm np dd b IH d H. cbn [fb_node] in H. apply andb_true_iff in H as [H0 H]. apply andb_true_iff in H0 as [Hnp Hdd].
+      apply Nat.eqb_eq in Hnp. subst np. destruct dd; [discriminate Hdd|]. destruct d as [|d]; [discriminate H|].
+      destruct (Q_list b d IH H) as [H1 H2]. unfold Q. cbn [sbn option_map]. rewrite (lower_A 50 _ H2). split.
+      + cbn [print]. rewrite !print_def, app_nil_r. change (param_text O) with (@nil tok). cbn [app].
+        change (?a :: ?b' :: bg :: ?l) with ([a; b'; bg] ++ l). apply xp_app.
+        * apply xp_toks. constructor; [destruct g; apply inert_esc; cbv; congruence|]. constructor; [apply inert_mname|].
+          constructor; [apply inert_bg|constructor].
+        * apply xp_app; [exact H1|apply xp_tok, inert_eg].
+      + cbn [forallb fa_node Nat.eqb is_none andb]. now rewrite H2.
+    - intros nm o a IH d H. cbn [fb_node] in H. apply andb_true_iff in H as [Ho H]. destruct o; [discriminate Ho|].
+      cbn [sbn option_map].
+      assert (Ha : xp ps (print_args a) (print_args (map (subst d args) a)) /\ forallb (forallb fa_node) (map (subst d args) a) = true).
+      { clear Ho. induction IH as [|arg a Harg _ IHa]; [split; [apply xp_nil|reflexivity]|].
+        cbn [forallb] in H. apply andb_true_iff in H as [H1 H2]. destruct d as [|d]; [discriminate H1|].
+        destruct (Q_list arg d Harg H1) as [Q1 Q2]. destruct (IHa H2) as [I1 I2].
+        cbn [map print_args forallb]. rewrite Q2, I2. split; [|reflexivity].
+        change (bg :: ?l) with ([bg] ++ l). apply xp_app; [apply xp_tok, inert_bg|].
+        apply xp_app; [exact Q1|]. change (eg :: ?l) with ([eg] ++ l). apply xp_app; [apply xp_tok, inert_eg|exact I1]. }
+      destruct Ha as [A1 A2]. split.
+      + unfold sbn. cbn [option_map print]. rewrite !print_call, app_nil_r. change (?x :: ?l) with ([x] ++ l).
+        apply xp_app; [apply xp_tok, inert_mname|exact A1].
+      + unfold sbn. cbn [option_map forallb fa_node is_none andb]. now rewrite A2.
+    - intros t th el IHth IHel d H. cbn [fb_node] in H. apply andb_true_iff in H as [Ht H]. destruct d as [|d]; [discriminate H|].
+      apply andb_true_iff in H as [Hth He]. destruct (Q_list th d IHth Hth) as [T1 T2].
+      assert (E : xp ps (else_part el) (else_part (option_map (subst (S d) args) el)) /\
+                  match option_map (subst (S d) args) el with Some e => forallb fa_node e | None => true end = true).
+      { destruct el as [e|]; [|split; [apply xp_nil|reflexivity]]. destruct (Q_list e d (IHel e eq_refl) He) as [E1 E2].
+        cbn [option_map else_part]. split; [|exact E2]. change (esc s_else :: ?l) with ([esc s_else] ++ l).
+        apply xp_app; [apply xp_tok, inert_esc; cbv; congruence|exact E1]. }
+      destruct E as [E1 E2]. unfold Q. cbn [sbn]. split.
+      + cbn [print]. rewrite !print_cond, app_nil_r. fold (else_part el). fold (else_part (option_map (subst (S d) args) el)).
+        apply xp_app; [apply xp_toks, inert_test|]. apply xp_app; [exact T1|].
+        apply xp_app; [exact E1|apply xp_tok, inert_esc; cbv; congruence].
+      + cbn [forallb fa_node]. now rewrite Ht, T2, E2.
+  Qed.
+
+  Lemma subst_print d b : forallb (fun y => fb_node n y d) b = true ->
+    expand_def (print b) false ps = Some (print (subst (S d) args b)) /\ forallb fa_node (subst (S d) args b) = true.
+  Proof.
+    intros H. destruct (Q_list b d) as [H1 H2]; [apply Forall_forall; intros x _; apply Q_all|exact H|].
+    split; [|exact H2]. specialize (H1 []). rewrite !app_nil_r in H1. rewrite H1. cbn [expand_def]. now rewrite app_nil_r.
+  Qed.
+End Subst.
+
+(* ---- Definition.invoke on  #1..#n  and braced arguments ---- *)
+Definition ptext (i m : nat) : list tok := flat_map (fun i => [hash_tok; other (48 + N.of_nat i)]) (seq i m).
+
+Lemma read_argument_bg a rest : depth_after a O = Some O -> read_argument (bg :: a ++ eg :: rest) = (Some a, rest).
+Proof.
+  intros Hd. unfold read_argument. cbn [read_optional_spaces]. change (is_space bg) with false. cbn iota.
+  unfold read_token. change (is_bgroup bg) with true. cbn iota.
+  rewrite (read_group_app a O [] (eg :: rest) O Hd). cbn [read_group].
+  change (is_bgroup eg) with false. change (is_egroup eg) with true. cbn iota. now rewrite app_nil_r, rev_involutive.
+Qed.
+
+Lemma match_ptext m : forall i params a0 args rest,
+  depth_after (print a0) O = Some O -> Forall (fun a => depth_after (print a) O = Some O) args ->
+  length args = m -> (i + m <= 10)%nat ->
+  match_pattern (ptext i m) false true params (bg :: print a0 ++ eg :: print_args args ++ rest)
+  = MOk (rev params ++ Some (print a0) :: map Some (map print args)) rest.
+Proof.
+  induction m as [|m IH]; intros i params a0 args rest H0 Hargs Hlen Hi.
+  - destruct args; [|discriminate Hlen]. cbn [ptext seq flat_map match_pattern print_args app].
+    rewrite (read_argument_bg _ _ H0). cbn [rev map]. reflexivity.
+  - destruct args as [|a1 args]; [discriminate Hlen|]. inversion Hargs as [|x l H1 Hrest]; subst.
+    cbn [ptext seq flat_map app match_pattern]. change (is_param hash_tok) with true. cbn iota.
+    cbn [print_args app]. rewrite (read_argument_bg _ _ H0).
+    change (other (48 + N.of_nat i)) with (digit_tok i). rewrite (digit_of_digit i) by lia.
+    fold (ptext (S i) m). rewrite <- app_assoc. cbn [app].
+    rewrite (IH (S i) (Some (print a0) :: params) a1 args rest H1 Hrest); [|cbn in Hlen; lia|lia].
+    cbn [rev map]. now rewrite <- app_assoc.
+Qed.
+
+Lemma definition_invoke_params np body args rest :
+  (1 <= np <= 9)%nat -> length args = np -> Forall (fun a => depth_after (print a) O = Some O) args ->
+  definition_invoke (param_text np) body (print_args args ++ rest)
+  = match expand_def body false (None :: map Some (map print args)) with Some o => Some (o ++ rest) | None => None end.
+Proof.
+  intros Hnp Hlen Hargs. destruct np as [|m]; [lia|]. destruct args as [|a0 args]; [discriminate Hlen|].
+  inversion Hargs as [|x l H0 Hrest]; subst.
+  unfold definition_invoke, param_text. cbn [seq flat_map app]. cbn [match_pattern].
+  change (is_param hash_tok) with true. cbn iota.
+  change (other (48 + N.of_nat 1)) with (digit_tok 1). rewrite (digit_of_digit 1) by lia.
+  fold (ptext 2 m). cbn [print_args app]. rewrite <- app_assoc. cbn [app].
+  rewrite (match_ptext m 2 [None] a0 args rest H0 Hrest); [|cbn in Hlen; lia|lia].
+  cbn [rev app map]. reflexivity.
+Qed.
+
+(* ---- stored meanings of F2 ---- *)
+Definition good2 (m : MacroLang.meaning) : Prop :=
+  m_default m = None /\ (m_n m <= 9)%nat /\
+  (forallb (fun y => fb_node (m_n m) y BODY_DEPTH) (m_body m) = true \/ (m_n m = O /\ forallb fa_node (m_body m) = true)).
+
+Lemma fb0_fa : forall x d, fb_node O x d = true -> fa_node x = true.
+Proof.
+  apply (node_ind2 (fun x => forall d, fb_node O x d = true -> fa_node x = true)).
+  - intros x Hs d H. destruct x; try discriminate H; try discriminate Hs; try reflexivity.
+    cbn [fb_node] in H. apply andb_true_iff in H as [H1 H2]. apply Nat.leb_le in H1, H2. lia.
+  - intros b IH d H. cbn [fb_node fa_node] in *. destruct d as [|d]; [discriminate H|].
+    apply (forallb_imp (fun y => fb_node O y d)); [|exact H]. eapply Forall_impl; [|exact IH]. intros y Hy. apply Hy.
+  - intros g nm np dd b IH d H. cbn [fb_node fa_node] in *. apply andb_true_iff in H as [H0 H]. rewrite H0. destruct d as [|d]; [discriminate H|].
+    apply (forallb_imp (fun y => fb_node O y d)); [|exact H]. eapply Forall_impl; [|exact IH]. intros y Hy. apply Hy.
+  - intros nm o a IH d H. cbn [fb_node fa_node] in *. apply andb_true_iff in H as [H0 H]. rewrite H0. cbn [andb].
+    clear H0. induction IH as [|arg a Harg _ IHa]; [reflexivity|]. cbn [forallb] in *. apply andb_true_iff in H as [H1 H2].
+    apply andb_true_iff. split; [|now apply IHa]. destruct d as [|d]; [discriminate H1|].
+    apply (forallb_imp (fun y => fb_node O y d)); [|exact H1]. eapply Forall_impl; [|exact Harg]. intros y Hy. apply Hy.
+  - intros t th el IHth IHel d H. cbn [fb_node fa_node] in *. apply andb_true_iff in H as [Ht H]. rewrite Ht. destruct d as [|d]; [discriminate H|].
+    apply andb_true_iff in H as [Hth He]. cbn [andb]. apply andb_true_iff. split.
+    + apply (forallb_imp (fun y => fb_node O y d)); [|exact Hth]. eapply Forall_impl; [|exact IHth]. intros y Hy. apply Hy.
+    + destruct el as [e|]; [|reflexivity]. apply (forallb_imp (fun y => fb_node O y d)); [|exact He].
+      eapply Forall_impl; [|exact (IHel e eq_refl)]. intros y Hy. apply Hy.
+Qed.
+Lemma fb0_fal d l : forallb (fun y => fb_node O y d) l = true -> forallb fa_node l = true.
+Proof. apply forallb_imp. apply Forall_forall. intros x _. apply fb0_fa. Qed.
+
+Lemma good2_body_W m : good2 m -> forallb w_node (m_body m) = true.
+Proof. intros (_ & _ & [H|[_ H]]); [now apply (fb_Wl (m_n m) BODY_DEPTH)|now apply fa_Wl]. Qed.
+
+Section Unfold2.
+  Context (f : nat) (e : env) (out : list Z) (rest : list node) (budget : nat) (Hs : steps e = S budget).
+  Let e1 := tick e budget.
+
+  Lemma eval_call nm a : eval (S f) e out (NCall nm None a :: rest) =
+    match lookup_frames nm (frames e1) with
+    | None => Stuck 1
+    | Some m =>
+        if Nat.eqb (length a) (m_n m) then
+          let args := match m_default m with Some d => d :: a | None => a end in
+          let body := subst 50 args (m_body m) in
+          if Nat.ltb 4000 (length body) then MacroLang.OutOfFuel else
+          match eval f e1 out body with Ok e' out' => eval f e' out' rest | other => other end
+        else Stuck 2
+    end.
+  Proof. cbn [eval]. rewrite Hs. reflexivity. Qed.
+  Lemma gsafe_call nm a : gsafe (S f) e out (NCall nm None a :: rest) =
+    match lookup_frames nm (frames e1) with
+    | None => true
+    | Some m =>
+        let args := match m_default m with Some d => d :: a | None => a end in
+        let body := subst 50 args (m_body m) in
+        gsafe f e1 out body && match eval f e1 out body with Ok e' out' => gsafe f e' out' rest | _ => true end
+    end.
+  Proof. cbn [gsafe]. rewrite Hs. reflexivity. Qed.
+
+  Lemma eval_call_good nm a m : lookup_frames nm (frames e1) = Some m -> m_default m = None ->
+    eval (S f) e out (NCall nm None a :: rest) =
+    if Nat.eqb (length a) (m_n m) then
+      if Nat.ltb 4000 (length (subst 50 a (m_body m))) then MacroLang.OutOfFuel else
+      match eval f e1 out (subst 50 a (m_body m)) with Ok e' out' => eval f e' out' rest | other => other end
+    else Stuck 2.
+  Proof. intros Hl Hd. rewrite eval_call, Hl, Hd. reflexivity. Qed.
+  Lemma eval_call_none nm a : lookup_frames nm (frames e1) = None -> eval (S f) e out (NCall nm None a :: rest) = Stuck 1.
+  Proof. intros Hl. now rewrite eval_call, Hl. Qed.
+  Lemma gsafe_call_good nm a m : lookup_frames nm (frames e1) = Some m -> m_default m = None ->
+    gsafe (S f) e out (NCall nm None a :: rest) =
+    gsafe f e1 out (subst 50 a (m_body m)) &&
+    match eval f e1 out (subst 50 a (m_body m)) with Ok e' out' => gsafe f e' out' rest | _ => true end.
+  Proof. intros Hl Hd. rewrite gsafe_call, Hl, Hd. reflexivity. Qed.
+End Unfold2.
+
+(* ---- executing a call ---- *)
+Lemma forallb2_Forall {A} (p : A -> bool) ll : forallb (forallb p) ll = true -> Forall (fun l => forallb p l = true) ll.
+Proof. induction ll as [|l ll IH]; intros H; [constructor|]. cbn in H. apply andb_true_iff in H as [H1 H2]. constructor; auto. Qed.
+
+Lemma exec_call2 U B nm m a r :
+  good2 m -> chain_get U B (mname nm) = Some (mean_of m) -> forallb (forallb fa_node) a = true -> length a = m_n m ->
+  exec (St (esc (mname nm) :: print_args a ++ r) U B) [] (St (print (subst 50 a (m_body m)) ++ r) U B) /\
+  forallb fa_node (subst 50 a (m_body m)) = true.
+Proof.
+  intros (Hd & Hn9 & Hbody) Hlk Ha Hlen. pose proof (forallb2_Forall _ _ Ha) as HaF.
+  assert (Hdep : Forall (fun x => depth_after (print x) O = Some O) a).
+  { eapply Forall_impl; [|exact HaF]. intros x Hx. apply depth_Wl. now apply fa_Wl. }
+  destruct (m_n m) as [|k] eqn:En.
+  - (* no parameters: the definition is returned as it is *)
+    destruct a; [|discriminate Hlen]. cbn [print_args app].
+    assert (HA : forallb fa_node (m_body m) = true) by (destruct Hbody as [H|[_ H]]; [now apply (fb0_fal BODY_DEPTH)|exact H]).
+    rewrite (subst_A 50 [] _ HA). split; [|exact HA].
+    eapply (ex_cont O); [|apply ex_refl].
+    rewrite (step_macro _ _ _ (mname nm) (mean_of m)); [|reflexivity|reflexivity|exact Hlk].
+    unfold mean_of. rewrite En. reflexivity.
+  - destruct Hbody as [Hb|[H0 _]]; [|discriminate H0].
+    destruct (subst_print a (S k) HaF ltac:(lia) BODY_DEPTH (m_body m) Hb) as [Hx HA].
+    split; [|exact HA].
+    eapply (ex_cont O); [|apply ex_refl].
+    rewrite (step_macro _ _ _ (mname nm) (mean_of m)); [|reflexivity|reflexivity|exact Hlk].
+    unfold mean_of. rewrite En. cbn [invoke input].
+    rewrite (definition_invoke_params (S k) (print (m_body m)) a r ltac:(lia) Hlen Hdep), Hx. reflexivity.
+Qed.
+
+(* ---- the simulation on F2 ---- *)
+Lemma sim2 f : forall e out ns e' out',
+  forallb f2_node ns = true -> eval f e out ns = Ok e' out' -> gsafe f e out ns = true ->
+  forall U B rest, Rfg good2 (frames e) U B ->
+  exists T U' B',
+    exec (St (print ns ++ rest) U B) T (St rest U' B') /\ Rfg good2 (frames e') U' B' /\ length U' = length U /\
+    words_text (rev out') = words_text (rev out) ++ text_of T.
+Proof.
+  induction f as [|f IH]; intros e out ns e' out' HF Hev Hgs U B rest HR; [discriminate Hev|].
+  destruct ns as [|n ns].
+  { rewrite eval_nil in Hev. injection Hev as <- <-. exists [], U, B. repeat split; [apply ex_refl|exact HR|now rewrite app_nil_r]. }
+  cbn [forallb] in HF. apply andb_true_iff in HF as [Hn Hns].
+  destruct (eval_budget f e out n ns _ Hev) as [Hno|(budget & Hs)]; [exfalso; now apply (Hno e' out')|].
+  assert (HR1 : Rfg good2 (frames (tick e budget)) U B) by exact HR.
+  cbn [print]. rewrite <- app_assoc.
+  destruct n; try discriminate Hn.
+  - (* word *)
+    rewrite (eval_word f e out ns budget Hs) in Hev. rewrite (gsafe_word f e out ns budget Hs) in Hgs.
+    destruct (IH _ _ _ _ _ Hns Hev Hgs U B rest HR1) as (T & U' & B' & Hex & HR' & Hlen & Htxt).
+    exists (wprint w ++ T), U', B'. repeat split; [|exact HR'|exact Hlen|].
+    + eapply exec_trans; [apply exec_plain, plain_wprint|exact Hex].
+    + rewrite Htxt, words_text_snoc, text_of_app, (text_of_plain _ (plain_wprint w)). now rewrite app_assoc.
+  - (* group *)
+    cbn [f2_node] in Hn.
+    rewrite (eval_group f e out ns budget Hs) in Hev. rewrite (gsafe_group f e out ns budget Hs) in Hgs.
+    apply andb_true_iff in Hgs as [Hg1 Hg2].
+    destruct (eval f (with_frames (tick e budget) ([] :: frames (tick e budget))) out body) as [e2 out2| |] eqn:Eb; try discriminate Hev.
+    rewrite print_group. cbn [app]. rewrite <- app_assoc. cbn [app].
+    destruct (IH _ _ _ _ _ Hn Eb Hg1 ([] :: U) B (eg :: print ns ++ rest) (Rfg_push good2 _ _ _ HR1))
+      as (T1 & U1 & B1 & Hex1 & HR1' & Hlen1 & Htxt1).
+    destruct U1 as [|u1 U1]; [discriminate Hlen1|].
+    assert (HR2 : Rfg good2 (frames (with_frames e2 (tl (frames e2)))) U1 B1) by (apply (Rfg_pop good2 _ u1); exact HR1').
+    destruct (IH _ _ _ _ _ Hns Hev Hg2 U1 B1 rest HR2) as (T2 & U2 & B2 & Hex2 & HR2' & Hlen2 & Htxt2).
+    exists ([prim_elem PBgroup] ++ T1 ++ [prim_elem PEgroup] ++ T2), U2, B2. repeat split; [|exact HR2'|cbn in Hlen1; lia|].
+    + eapply exec_trans; [apply (exec_bgroup good2 _ _ _ _ HR1)|].
+      eapply exec_trans; [exact Hex1|].
+      eapply exec_trans; [apply (exec_egroup good2 _ _ _ _ _ HR1')|exact Hex2].
+    + rewrite Htxt2, Htxt1, !text_of_app. cbn [text_of filter prim_elem is_elem]. cbn. now rewrite <- !app_assoc.
+  - (* definition *)
+    cbn [f2_node] in Hn. apply andb_true_iff in Hn as [Hn Hbody]. apply andb_true_iff in Hn as [Hnp Hdflt].
+    destruct default; [discriminate Hdflt|]. apply Nat.leb_le in Hnp.
+    rewrite (eval_def f e out ns budget Hs) in Hev. rewrite (gsafe_def f e out ns budget Hs) in Hgs.
+    apply andb_true_iff in Hgs as [Hun Hg2].
+    set (m := {| m_n := nparams; m_default := None; m_body := body |}) in *.
+    assert (Hm : good2 m).
+    { split; [reflexivity|]. split; [exact Hnp|]. apply orb_true_iff in Hbody as [Hb|Hb]; [now left|].
+      apply andb_true_iff in Hb as [H0 Hb]. apply Nat.eqb_eq in H0. right. now split. }
+    rewrite print_def. cbn [app]. repeat (rewrite <- app_assoc; cbn [app]).
+    pose proof (exec_def good2 _ U B global name nparams (print body) (print ns ++ rest) HR1
+                  (depth_Wl _ (good2_body_W m Hm) O)) as Hex0. cbv zeta in Hex0.
+    change (MDef (param_text nparams) (print body)) with (mean_of m) in Hex0.
+    set (st := (if global then add_global else add_local) (mname name) (mean_of m) (St (print ns ++ rest) U B)) in *.
+    assert (Hst : exists U0 B0, st = St (print ns ++ rest) U0 B0 /\ length U0 = length U /\
+                   Rfg good2 ((if global then def_global else def_local) name m (frames (tick e budget))) U0 B0).
+    { subst st. destruct global.
+      - exists U, ((mname name, mean_of m) :: B). split; [reflexivity|]. split; [reflexivity|].
+        now apply Rfg_def_global.
+      - pose proof (Rfg_def_local good2 _ U B name m Hm HR1) as Hl. cbv zeta in Hl.
+        unfold add_local in *. cbn [ups] in *. destruct U as [|u U]; cbn [ups bottom set_ups set_bottom add_global input] in *.
+        + eexists [], _. split; [reflexivity|]. split; [reflexivity|exact Hl].
+        + eexists (_ :: U), B. split; [reflexivity|]. split; [reflexivity|exact Hl]. }
+    destruct Hst as (U0 & B0 & Est & Hlen0 & HR0). rewrite Est in Hex0.
+    destruct (IH _ _ _ _ _ Hns Hev Hg2 U0 B0 rest HR0) as (T & U' & B' & Hex & HR' & Hlen & Htxt).
+    exists ([prim_elem (PDef global)] ++ T), U', B'. repeat split; [|exact HR'|lia|].
+    + eapply exec_trans; [exact Hex0|exact Hex].
+    + rewrite Htxt, text_of_app. replace (text_of [prim_elem (PDef global)]) with (@nil tok) by (destruct global; reflexivity). reflexivity.
+  - (* call *)
+    cbn [f2_node] in Hn. apply andb_true_iff in Hn as [Ho Ha]. destruct opt; [discriminate Ho|].
+    destruct (lookup_frames name (frames (tick e budget))) as [m|] eqn:El;
+      [|rewrite (eval_call_none f e out ns budget Hs name args El) in Hev; discriminate Hev].
+    pose proof (Rfg_good good2 _ _ _ _ _ HR1 El) as Hm. pose proof Hm as (Hmd & _ & _).
+    rewrite (eval_call_good f e out ns budget Hs name args m El Hmd) in Hev.
+    rewrite (gsafe_call_good f e out ns budget Hs name args m El Hmd) in Hgs.
+    destruct (Nat.eqb (length args) (m_n m)) eqn:Elen; [|discriminate Hev]. apply Nat.eqb_eq in Elen.
+    destruct (Nat.ltb 4000 (length (subst 50 args (m_body m)))); [discriminate Hev|].
+    apply andb_true_iff in Hgs as [Hg1 Hg2].
+    destruct (eval f (tick e budget) out (subst 50 args (m_body m))) as [e2 out2| |] eqn:Eb; try discriminate Hev.
+    rewrite print_call. cbn [app].
+    assert (Hlk : chain_get U B (mname name) = Some (mean_of m)) by (rewrite (Rfg_lookup good2 _ _ _ name HR1), El; reflexivity).
+    destruct (exec_call2 U B name m args (print ns ++ rest) Hm Hlk Ha Elen) as [Hex0 HA].
+    destruct (IH _ _ _ _ _ (fa_f2l _ HA) Eb Hg1 U B (print ns ++ rest) HR1) as (T1 & U1 & B1 & Hex1 & HR1' & Hlen1 & Htxt1).
+    destruct (IH _ _ _ _ _ Hns Hev Hg2 U1 B1 rest HR1') as (T2 & U2 & B2 & Hex2 & HR2' & Hlen2 & Htxt2).
+    exists (T1 ++ T2), U2, B2. repeat split; [|exact HR2'|lia|].
+    + eapply (exec_trans _ []); [exact Hex0|]. eapply exec_trans; [exact Hex1|exact Hex2].
+    + rewrite Htxt2, Htxt1, text_of_app. now rewrite app_assoc.
+  - (* conditional *)
+    cbn [f2_node] in Hn. apply andb_true_iff in Hn as [Hn Hel]. apply andb_true_iff in Hn as [Ht Hth].
+    rewrite (eval_cond f e out ns budget Hs) in Hev. rewrite (gsafe_cond f e out ns budget Hs) in Hgs. cbv zeta in Hgs.
+    apply andb_true_iff in Hgs as [Hg1 Hg2].
+    set (br := if eval_test (tick e budget) t then thn else match els with Some x => x | None => [] end) in *.
+    destruct (eval f (tick e budget) out br) as [e2 out2| |] eqn:Eb; try discriminate Hev.
+    rewrite print_cond. rewrite <- !app_assoc. cbn [app].
+    assert (Hel' : forall e0, els = Some e0 -> forallb f2_node e0 = true) by (intros e0 ->; exact Hel).
+    destruct (exec_cond good2 _ U B t thn els (print ns ++ rest) HR1 Ht (walks_Wl _ (f2_Wl _ Hth))
+               (fun e0 He0 => walks_Wl _ (f2_Wl _ (Hel' e0 He0))) (tick e budget) eq_refl) as (X & HX & Hex0).
+    assert (Hbr : forallb f2_node br = true) by (subst br; destruct (eval_test (tick e budget) t); [exact Hth|destruct els as [x|]; [now apply Hel'|reflexivity]]).
+    destruct (IH _ _ _ _ _ Hbr Eb Hg1 U B (print ns ++ rest) HR1) as (T1 & U1 & B1 & Hex1 & HR1' & Hlen1 & Htxt1).
+    destruct (IH _ _ _ _ _ Hns Hev Hg2 U1 B1 rest HR1') as (T2 & U2 & B2 & Hex2 & HR2' & Hlen2 & Htxt2).
+    exists ((if eval_test (tick e budget) t then X else []) ++ T1 ++ T2), U2, B2. repeat split; [|exact HR2'|lia|].
+    + eapply (exec_trans _ []); [exact Hex0|]. subst br. destruct (eval_test (tick e budget) t).
+      * rewrite <- app_assoc. eapply exec_trans; [|eapply exec_trans; [exact Hex1|exact Hex2]].
+        clear -HX. induction HX as [|x X Hx _ IHX]; [apply ex_refl|]. cbn [app].
+        eapply (ex_yield O); [now apply step_elem|exact IHX].
+      * cbn [app]. replace (print (else_nodes els)) with (print match els with Some x => x | None => [] end) by (destruct els; reflexivity).
+        eapply exec_trans; [exact Hex1|exact Hex2].
+    + rewrite Htxt2, Htxt1, !text_of_app.
+      replace (text_of (if eval_test (tick e budget) t then X else [])) with (@nil tok)
+        by (destruct (eval_test (tick e budget) t); [now rewrite text_of_elems|reflexivity]).
+      cbn [app]. now rewrite app_assoc.
+Qed.
+
+Theorem engine_simulates_F2 fuel p e out :
+  in_F2 p = true -> den fuel p = Ok e out -> gdef_safe fuel p = true ->
+  exists fuel' st' T,
+    run fuel' (init (print p)) [] = Done st' T /\
+    text_of T = words_text (rev out) /\
+    ups st' = [] /\
+    (forall id, findm (mname id) (bottom st') = option_map mean_of (alookup id (last (frames e) []))) /\
+    (forall k, (forall id, k <> mname id) -> findm k (bottom st') = findm k base_frame).
+Proof.
+  intros HF Hden Hsafe. unfold in_F2 in HF. unfold den in Hden. unfold gdef_safe in Hsafe.
+  destruct (sim2 fuel empty_env [] p e out HF Hden Hsafe [] base_frame [] (Rfg_init good2)) as (T & U' & B' & Hex & HR & Hlen & Htxt).
+  destruct U' as [|u U']; [|discriminate Hlen]. rewrite app_nil_r in Hex.
+  destruct (exec_run _ _ _ Hex eq_refl) as (fuel' & Hrun).
+  exists fuel', (St [] [] B'), T. split; [exact (Hrun [])|]. split; [cbn in Htxt; now rewrite Htxt|]. split; [reflexivity|].
+  destruct HR as (mfs & mg & E & HF2 & HB & _). inversion HF2; subst. rewrite E. cbn [app last bottom]. exact HB.
 Qed.
